@@ -19,6 +19,7 @@ func init() {
 		ID:    "C15",
 		Level: "exploration",
 		Rule: "every instruction and terminator of every function of every accepted corpus module (atoms with all 66 kinds, /repo testdata, llvm-stress, generated modules) is examined: (1) completeness: the addresses of all non-nil value-typed fields found by reflection (directly, in argument lists, Incoming, Case, Clause, OperandBundle) must be exactly the pointers returned by Operands(); (2) liveness: a fresh same-typed sentinel written through each slot must change exactly that operand in LLString() and restoring must restore the text; (3) replace-all-uses: substituting a value through the slots of all users must leave no occurrence of its identifier in the printed function besides its definition; (4) Succs() must equal the block-valued target fields in order, be blocks of the same function, and follow a target rewritten through a slot; (5) after the operand-holding lists (Incs, Args, Cases, Clauses, Indices, bundles) are replaced by equal copies, Operands() must describe the new slots; (6) no operand slot is shared by two users of a module. " +
+			"(7) every terminator built by its constructor: no typed nil in Operands(), no nil in Succs(); a target replaced by a twin block carrying the old label must show in Succs(), also on never-printed functions; replace-all-uses also substitutes the results of invoke, callbr and catchswitch. " +
 			"non-trivial = an instruction/terminator with at least one operand slot; distinct by (instruction kind, printed text)",
 		Gen:           genC15,
 		MinNontrivial: 300,
@@ -688,6 +689,20 @@ func c15ReplaceAll(r *fw.Rec, id, text string, f *ir.Func) {
 			}
 		}
 	}
+	// results of terminators (invoke, callbr, catchswitch) are values with users too
+	var termCands []value.Value
+	for _, b := range f.Blocks {
+		if v, ok := b.Term.(value.Value); ok {
+			isVoid := true
+			fw.Guard(func() { isVoid = types.Equal(v.Type(), types.Void) })
+			if !isVoid {
+				termCands = append(termCands, v)
+			}
+		}
+	}
+	if len(termCands) > 6 {
+		termCands = termCands[:6]
+	}
 	if len(cands) > 12 {
 		step := len(cands) / 12
 		var sub []value.Value
@@ -696,6 +711,7 @@ func c15ReplaceAll(r *fw.Rec, id, text string, f *ir.Func) {
 		}
 		cands = sub
 	}
+	cands = append(cands, termCands...)
 	full := f.LLString()
 	base := stripUseListOrders(full)
 	for _, v := range cands {
